@@ -111,6 +111,18 @@ def section_algebra():
             except Exception as ex:
                 fail("algebra", "adjoint raised", error=repr(ex)[:300])
 
+    # products with plain Python numbers on either side
+    a0 = BosonOp("a")
+    rep0 = Rep([a0], D=9)
+    x0 = NOF.from_expr(a0 + 2 * Dagger(a0) * NumberOperator(a0))
+    X0 = mat(rep0, x0)
+    for nm, thunk, fac in (("x * 2", lambda: x0 * 2, 2), ("2 * x", lambda: 2 * x0, 2), ("x * 2.5", lambda: x0 * 2.5, 2.5), ("x * Integer(3)", lambda: x0 * sympy.Integer(3), 3)):
+        cases += 1
+        try:
+            if compare_on_interior(rep0, mat(rep0, thunk()), fac * X0, 3) > 1e-9:
+                fail("algebra", f"{nm} differs from the scalar multiple", factor=fac)
+        except Exception as ex:
+            fail("algebra", f"{nm} raised", error=repr(ex)[:200])
     # integer powers of SINGLE-term forms (monomials with number-dependent coefficients and unmatched creators or annihilators), incl. power 0
     for layout, D in (([a], 14), ([a, c], 12), ([l, c], 12), ([a, l], 9), ([s, c], 2)):
         ops = sort_ops(layout)
@@ -312,6 +324,37 @@ def section_sq_finding():
         fail("sq_finding", "unexpected: excited states differ as well")
 
 
+def section_asexpr_finding():
+    """Witness of known finding F-ASEXPR (C08): as_expr() of a form whose coefficient is a function of the number operator that sympy regards as commutative
+    (Abs, ...): sympy moves the coefficient in front of the creation operators, which changes the operator."""
+    global cases
+    cases += 1
+    a = BosonOp("a")
+    Na = NumberOperator(a)
+    X = NOF.from_expr(Dagger(a)) * NOF.from_expr(sympy.Abs(Na - 3))
+    back = NOF.from_expr(X.as_expr())
+    rep = Rep([a], D=10)
+    if compare_on_interior(rep, mat(rep, back), mat(rep, X), 2) > 1e-9:
+        fail("asexpr_finding", "from_expr(as_expr(x)) differs from x for x = a^dagger |N - 3|", as_expr=str(X.as_expr()), back=str(back.terms), orig=str(X.terms))
+
+
+def section_nh2q_finding():
+    """Witness of known finding F-NH2Q (C05): hermitian=False with operator-valued (second-quantized) input: solve_sylvester_2nd_quant always applies the Hermitian
+    shortcut (solve half of the terms, subtract the adjoint)."""
+    global cases
+    from pymablock import block_diagonalize
+    cases += 1
+    a = BosonOp("a")
+    N = NumberOperator(a)
+    Ht, U, Ui = block_diagonalize([sympy.Matrix([[N]]), sympy.Matrix([[a + 2 * Dagger(a)]])], hermitian=False)
+    rep = Rep([a], D=12)
+    got = _entry_matrix(rep, Ht[0, 0, 2][0, 0])
+    # exact second-order energy of N + lam (a + 2 a^dagger): -2 for every level (non-Hermitian displacement)
+    want = -2.0 * np.eye(rep.dim)
+    if compare_on_interior(rep, got, want, 3) > 1e-9:
+        fail("nh2q_finding", "hermitian=False with second-quantized input: H_tilde_2 of N + lam (a + 2 a^dagger) is not -2", got=str(Ht[0, 0, 2]))
+
+
 def section_secondq():
     """C07: operator-valued block_diagonalize against numpy block_diagonalize of the truncated matrices, on Fock states far from the edge."""
     global cases
@@ -335,6 +378,7 @@ def section_secondq():
          (LadderOp("m") + Dagger(LadderOp("m"))) * (1 + 2 * Nc) + R(1, 2) * (c + Dagger(c)), 11, 3, None),
         ("ladder mode and a spin, longitudinal drive", [LadderOp("m"), s], NumberOperator(LadderOp("m")) + R(5, 11) * Ns,
          (LadderOp("m") + Dagger(LadderOp("m"))) * (Ns - R(1, 2)) + R(1, 3) * sx, 11, 3, None),
+        ("boson-fermion hopping with an imaginary amplitude (complex coefficients)", [a, c], Na + R(3, 7) * Nc, sympy.I * (Dagger(a) * c - Dagger(c) * a) + R(1, 2) * (a + Dagger(a)), 11, 3, None),
         ("matrix-valued, two blocks", [a], sympy.Matrix([[Na, 0], [0, Na + R(5, 3)]]), sympy.Matrix([[a + Dagger(a), 2 * a], [2 * Dagger(a), Na]]), 12, 3, [0, 1]),
         ("matrix-valued, two blocks, immutable sympy matrices", [a], sympy.ImmutableMatrix([[Na, 0], [0, Na + R(5, 3)]]),
          sympy.ImmutableMatrix([[a + Dagger(a), 2 * a], [2 * Dagger(a), Na]]), 12, 3, [0, 1]),
